@@ -106,6 +106,10 @@ Deserialize == /\ stored # NoMI /\ mi' = stored
 (* design model *)
 Tables == UNION {[D -> TableLens] : D \in (SUBSET Thresholds) \ {{}}}
 ChooseFresh(t) == mi = NoMI /\ ChoosePieceLength(t)   \* (design model only: tables are tried on fresh blobs)
+\* the blob stream fails with an I/O error before its end: an error is returned, nothing is generated, and nothing
+\* of the failed attempt is remembered (a later generation is the same function of (blob, piece length) as ever)
+GenerateFailed == UNCHANGED mvars
+
 Next == \/ \E len \in 0..MaxLen : NewBlob(len)
         \/ \E p \in (0 - 1)..MaxPL : SetPieceLength(p)
         \/ \E t \in Tables : ChooseFresh(t)
